@@ -187,7 +187,10 @@ class Interp(object):
     return state
 
   def run_if(self, op, v):
-    c = sym.scalar(v[0])
+    cc = np.asarray(v[0], dtype=object).reshape(-1)
+    c = cc[0]
+    for t in cc[1:]:
+      c = sym.s_and(c, t)
     tb = op.get_attr('then_branch').name
     eb = op.get_attr('else_branch').name
     lib = self._library()
@@ -265,7 +268,11 @@ class Interp(object):
   op_StatelessIf = op_If
 
   def op_Assert(self, op, v):
-    self.assert_preds.append((op.name, sym.scalar(v[0])))
+    c = np.asarray(v[0], dtype=object).reshape(-1)
+    acc = True
+    for t in c:
+      acc = sym.s_and(acc, t)
+    self.assert_preds.append((op.name, acc))
     return []
 
   # arithmetic
@@ -846,6 +853,11 @@ class Interp(object):
     params = np.asarray(self.var_value(ref), dtype=object)
     ii = np.asarray(v[1], dtype=object).astype(int)
     return [np.take(params, ii, axis=0)]
+
+  def op_ResourceGatherNd(self, op, v):
+    ref = sym.scalar(v[0])
+    params = np.asarray(self.var_value(ref), dtype=object)
+    return self.op_GatherNd(op, [params, v[1]])
 
   def op_GatherNd(self, op, v):
     params, idx = v
